@@ -11,6 +11,8 @@ elif patch -p1 -s -F3 --no-backup-if-mismatch < "$patch"; then :
 else echo "run_seeded: patch does not apply"; git checkout -- . ; exit 2; fi
 (cd libvore && go build ./... ) || { echo "run_seeded: does not build"; git checkout -- .; exit 2; }
 caught=1
+bk=$(mktemp -d /root/scratch/evbk.XXXX)
+cp /verif/evidence/*.json "$bk"/ 2>/dev/null
 for p in "$@"; do
   out=$(cd /verif && ./check "$p" quick 2>&1); rc=$?
   echo "$out" | grep -E '^(VIOLATION|ENGINE-ERROR|KNOWN-FINDING|C[0-9]+ )' | cut -c1-260
@@ -19,4 +21,6 @@ for p in "$@"; do
 done
 git checkout -- .
 git clean -fdq -- libvore main.go 2>/dev/null
+# the evidence files must describe the unchanged tree: restore them
+cp "$bk"/*.json /verif/evidence/ 2>/dev/null; rm -rf "$bk"
 exit $caught
